@@ -68,6 +68,8 @@ func reasonOf(msg string) string {
 		return "last_line_of_referenced_acl_deleted"
 	case strings.Contains(msg, "last line of crypto"):
 		return "referenced_crypto_map_emptied"
+	case strings.Contains(msg, "no such entry"):
+		return "rule_names_missing_entry_of_certificate_map"
 	case strings.Contains(msg, "certmap") && strings.Contains(msg, "still referenced"):
 		return "certificate_map_cleared_while_a_rule_still_names_it"
 	case strings.Contains(msg, "still referenced"):
